@@ -10,4 +10,5 @@ MCRes == @RES@
 MCBounds == <<5, 10>>
 MCScopes == @SCOPES@
 MCSpanFlags == @SPANFLAGS@
+MCFaultSet == @FAULTS@
 =============================================================================
